@@ -4108,14 +4108,16 @@ class SchemaValidator:
                             "alias": new_checkpoint_alias,
                             "description": new_checkpoint_description,
                             "dependencies": [
-                                {"checkpoint": connection["add_dependency"]},
                                 {
-                                    "checkpoint": imported_object["depends_on"]
+                                    # add_dependency belongs to the schema that declares the connection
+                                    "checkpoint": connection["add_dependency"]
                                     if importer_id is None
                                     else utils.prepend_schema_id(
-                                        importer_id, imported_object["depends_on"]
+                                        importer_id, connection["add_dependency"]
                                     )
                                 },
+                                # the imported action's own dependency is already namespaced
+                                {"checkpoint": imported_object["depends_on"]},
                             ],
                             "gate_type": "AND",
                         }
